@@ -242,6 +242,11 @@ Fixpoint run (s : state) (ops : list op) : option state :=
   end.
 End Model.
 
+(* SelectServer::Register{Single,Repeating}Timeout(unsigned int ms, ...) (common/io/SelectServer.cpp):
+   TimeInterval(ms / 1000, ms % 1000 * 1000) = that many seconds + that many microseconds.  All arithmetic is on
+   values that fit (see c16_ms_conversion); written as the code has it, NOT as 1000 * ms. *)
+Definition ms_to_us (ms : N) : N := (ms / 1000) * 1000000 + (ms mod 1000 * 1000).
+
 (* ------------------------------------------------------------------ the harness's choice functions *)
 Definition pool_size : N := 16.
 Definition pool_slots : list N := map N.of_nat (seq 1 16).
